@@ -52,6 +52,11 @@ CHECKS = {
          "All reachable states of (handshake indices, counters, pool of genuine messages, delivered data) under every schedule of emit / deliver-to-either-side / drop / send are enumerated to closure on real Sessions; on every transition: no panic, the handshake index never decreases, IsReady never reverts, Handshake() is idempotent and byte-stable; from every reached state the fair suffix (each side's current handshake message delivered once more in sequence) must make both sides ready and the very next data message each way must be delivered.",
          "At most two data messages per direction; genuine messages only.",
          "5/C06", "seqmc"),
+ "C08": ("fault_enumeration",
+         "exhaustive enumeration of crafted packet sequences (through the real entry path, deterministic schedule on the instrumented code) and of boundary-complete input grids for every parser/handler",
+         "Sequences of <=2 (quick) / <=3 (thorough) packets over per-layer header-field alphabets (every field over {0,1,boundary-1,boundary,boundary+1,max}, bodies shorter/equal/longer than declared, packets sharing an id so that later ones contradict earlier ones) are injected by a raw peer into fragswarm, mbapp (fast path on/off), the five multiplexers (tells and asks) and p2pkeswarm; a panic in any library goroutine, more than 64 MiB allocated, a killed worker process or a valid message no longer being delivered afterwards is a violation. Grids: all demux functions, six address parsers, PeerID.UnmarshalText, x509.ParsePublicKey (every single-byte mutation/truncation of a valid key), the QUIC frame reader, DHT handlers, and p2pke Sessions/Channels fed every genuine message with every byte zeroed/incremented/truncated at every handshake stage.",
+         "Longer sequences and field values outside the alphabets; QUIC/SSH stacks only through their parsers.",
+         "5/C08", "gosched"),
  "C10": ("model_checking",
          "exhaustive enumeration (deviation-bounded DFS under the controlled scheduler) of fragment delivery orders, duplications and losses with the harness as the inner transport of the real fragswarm/mbapp",
          "Genuine fragments of 2-4 messages (2 and 3 parts, equal part counts, same ids from different sources, several ids from one source) are captured from real sender instances; an adversary thread then delivers them to a real receiver instance in every order (quick) or every order within a reorder budget (largest thorough configurations), duplicating or dropping up to 1-3 fragments, with 1 or 2 receive workers; every payload the receiver yields must be byte-identical to a message of the source it is attributed to and a message that lost a fragment must never be delivered.",
